@@ -59,12 +59,27 @@ def check(prog, rep):
     rule_suppression(prog, rep)
     rule_registration(prog, rep)
     rule_columns(prog, rep)
-    rule_identity(prog, rep)
+    grouping = ingestion_decided_on_models(prog, rep, "R11")
+    if not grouping:
+        rule_identity(prog, rep)  # shape-based formulation of what the model record lists decide
     rule_first_wins(prog, rep)
-    rule_flush(prog, rep)
+    if not grouping:
+        rule_flush(prog, rep)
     rule_every_record_kept(prog, rep)
-    rule_models(prog, rep)
+    if not grouping:
+        rule_models(prog, rep)
     rule_water(prog, rep)
+
+
+def ingestion_decided_on_models(prog, rep, rid, only=None):
+    """True if Biomolecule.__init__ could be evaluated on the model record lists (the rule is then in the report)."""
+    from .shared import rule_ingestion_model
+    n_rules, n_def = len(rep.rules), len(rep.deferred)
+    rep.guarded(rule_ingestion_model, prog, rep, rid, only)
+    if len(rep.deferred) > n_def:
+        rep.deferred.pop()  # the shape-based rules take over
+        return False
+    return len(rep.rules) > n_rules
 
 
 # ------------------------------------------------------------------------------------- R1
